@@ -1,6 +1,7 @@
 package main
 
 import (
+	"reflect"
 	"strings"
 
 	lunar_messages "lunar/engine/messages"
@@ -83,19 +84,36 @@ func execTree(k *Case, txns []Txn) {
 		k.AddErr = append(k.AddErr, safeAdd(tree, fl))
 	}
 	k.Obs = nil
-	for _, t := range txns {
+	k.Mutated = nil
+	// every result is HELD until all transactions of the batch were looked up and
+	// is then read a second time: the flows selected for one transaction must not
+	// change because another transaction was looked up afterwards (a result that
+	// shares storage with the tree or with other results would)
+	held := [][][]internaltypes.FlowI{}
+	names := func(ls [][]internaltypes.FlowI) []int {
 		sel := []int{}
+		for _, l := range ls {
+			for _, fl := range l {
+				sel = append(sel, ids[fl])
+			}
+		}
+		return sortedInts(sel)
+	}
+	for _, t := range txns {
+		ls := [][]internaltypes.FlowI{}
 		if res, found := tree.GetFlow(mkStream(t)); found {
 			u, _ := res.GetUserFlow()
 			s, _ := res.GetSystemFlowStart()
 			e, _ := res.GetSystemFlowEnd()
-			for _, l := range [][]internaltypes.FlowI{u, s, e} {
-				for _, fl := range l {
-					sel = append(sel, ids[fl])
-				}
-			}
+			ls = [][]internaltypes.FlowI{u, s, e}
 		}
-		k.Obs = append(k.Obs, Obs{Txn: t, Selected: sortedInts(sel)})
+		held = append(held, ls)
+		k.Obs = append(k.Obs, Obs{Txn: t, Selected: names(ls)})
+	}
+	for i := range held {
+		if after := names(held[i]); !reflect.DeepEqual(after, k.Obs[i].Selected) {
+			k.Mutated = append(k.Mutated, Mutated{Index: i, After: after})
+		}
 	}
 }
 
